@@ -5,17 +5,20 @@
    case-insensitive table, extern mapping, internal_symbols_list, '.extern all', candidate order of
    Symbol._resolve) run over any trace of events -- no bound on the number of files, blocks, names or
    statements; where a hypothesis mentions [walk tr] the statement holds after any prefix [tr] of a program.
-   NOT proved: the full refinement [scope_refines] (ScopeM's final lookup = the definition Spec/Scope.v
-   designates, for every reference of every program).  Its corollaries are proved directly on the model below,
-   and model, Spec and real code are compared on every generated program inside coqc (tools/props/c11.py). *)
+   The full refinement [C11_scope_refines] (ScopeM's outcome = the outcome Spec/Scope.v designates, for every
+   well-nested, well-kinded trace, hence for every abstract program) is proved in Proofs/ScopeRefP.v and stated at
+   the end of this file; the corollaries below are older direct statements on the model. *)
 From Coq Require Import String List ZArith NArith Bool.
-From Verif Require Import Base.Res Spec.Scope Model.ScopeM Proofs.ScopeP.
+From Verif Require Import Base.Res Spec.Scope Model.ScopeM Proofs.ScopeP Proofs.ScopeRefP.
 Import ListNotations.
 Open Scope Z_scope.
 
-(* the full refinement, stated only *)
+(* the full refinement.  [nested]: every event other than the start of a file instance lies inside a file instance
+   (true of every trace [expand] produces, C11_expand_nested).  Without it the statement is false: in
+   [EFile; ELabel "a" false 1; EEndFile; ERef "a"] the Spec's empty-stack annotation has instance id 0, which is
+   also the position of the first EFile, while the model's empty-stack frame has prefix 0, which no instance has. *)
 Definition scope_refines_statement : Prop :=
-  forall tr, Forall wf_ev tr -> fst (model_trace tr) = spec_trace tr.
+  forall tr, Forall wf_ev tr -> nested tr = true -> fst (model_trace tr) = spec_trace tr.
 
 (* ".local{k}." + name and ".internal{k}." + name: distinct (kind, counter, name) give distinct strings *)
 Theorem C11_mangle_injective :
@@ -137,6 +140,66 @@ Proof.
 Qed.
 Print Assumptions C11_duplicate_is_error.
 
+(* scope_refines: the mechanism's outcome (words of every use site in order, or the set of error identifiers) is
+   the outcome the declarative Spec designates -- every reference gets exactly the definition Spec/Scope names, and
+   the model reports an error exactly when the Spec does, with the same identifiers *)
+Theorem C11_scope_refines : scope_refines_statement.
+Proof. exact scope_refines_lemma. Qed.
+Print Assumptions C11_scope_refines.
+
+(* ... for every abstract program with well-kinded names, whatever the fuel *)
+Theorem C11_expand_nested : forall fuel p tr, expand fuel p = Ok tr -> nested tr = true.
+Proof. exact expand_nested. Qed.
+Print Assumptions C11_expand_nested.
+
+Theorem C11_scope_refines_programs :
+  forall fuel p, wf_program p ->
+    match model_run fuel p, spec_run fuel p with
+    | Ok (o, _), Ok o' => o = o'
+    | Err a, Err b => a = b
+    | Crash a, Crash b => a = b
+    | OutOfFuel, OutOfFuel => True
+    | _, _ => False
+    end.
+Proof. exact scope_refines_run. Qed.
+Print Assumptions C11_scope_refines_programs.
+
+(* a reference to a symbol that is not visible is an error, never a silent value *)
+Theorem C11_undefined_is_error :
+  forall tr l i n, In (inr (l, i, n)) (outs (walk tr)) -> resolve_final (walk tr) l i n = None ->
+    exists es, fst (model_trace tr) = OutFail es /\ In E_UNDEFINED es.
+Proof. exact undefined_is_error. Qed.
+Print Assumptions C11_undefined_is_error.
+
+(* freshness, complete: after any well-nested trace nothing is bound under the next internal prefix (a new file
+   instance, linked or included, sees no earlier private name) nor under the next local prefix (a new scope sees no
+   earlier local label); every table entry and every extern mapping carries a counter that was really handed out *)
+Theorem C11_fresh_counters :
+  forall tr, nested tr = true ->
+    let s := walk tr in
+    (forall ln, lookup_key (KInternal, next_int s, ln) (syms s) = None) /\
+    (forall ln, lookup_key (KLocal, next_loc s, ln) (syms s) = None) /\
+    (forall ln key, lookup_ext ln (exts s) = Some key -> exists i, key = (KInternal, i, ln) /\ (1 <= i < next_int s)%N) /\
+    (forall k i ln v, lookup_key (k, i, ln) (syms s) = Some v ->
+       match k with KInternal => (1 <= i < next_int s)%N | KLocal => (1 <= i < next_loc s)%N end).
+Proof. exact fresh_counters. Qed.
+Print Assumptions C11_fresh_counters.
+
+(* export_order_free for labels: 'name:' commutes with '.extern name' (any spelling) and with '.extern all'.
+   ('name::' and 'name ==' are definition and export in one statement: there is no order to speak of; together with a
+   second export they are a duplicate in either order, C11_duplicate_is_error) *)
+Theorem C11_export_order_free_labels :
+  (forall s n m v,
+     f_isfile (topf s) = true -> f_xall (topf s) = false -> lower m = lower n ->
+     lookup_key (mkkey KInternal (f_int (topf s)) n) (syms s) = None ->
+     step (step s (ELabel n false v)) (EExtern [m]) = step (step s (EExtern [m])) (ELabel n false v)) /\
+  (forall s n v,
+     f_isfile (topf s) = true -> f_xall (topf s) = false ->
+     lookup_key (mkkey KInternal (f_int (topf s)) n) (syms s) = None ->
+     step (step s (ELabel n false v)) EExternAll = step (step s EExternAll) (ELabel n false v)).
+Proof. exact (conj extern_label_commute externall_label_commute). Qed.
+Print Assumptions C11_export_order_free_labels.
+
 (* non-vacuity: a two-file program with an include, reused local names, an export and a private name *)
 Definition ex_prog : program :=
   {| linked := [ [Label "a" false; LocalLabel "1$"; Ref "1$"; Label "b" false; LocalLabel "1$"; Ref "1$"; Ref "X"; Include 0; Ref "p"];
@@ -155,3 +218,6 @@ Example C11_ex_both :
 Proof. vm_compute. split; reflexivity. Qed.
 Example C11_ex_keys : render KLocal 12 "1$" = ".local12.1$"%string /\ render KInternal 3 "Foo" = ".internal3.Foo"%string.
 Proof. vm_compute. split; reflexivity. Qed.
+
+Example C11_ex_wf : wf_program ex_prog2.
+Proof. split; intros fl I; exists 5%nat; repeat (destruct I as [<-|I]; [vm_compute; reflexivity|]); destruct I. Qed.
